@@ -185,7 +185,9 @@ func (o *Oracles) Tainted() bool {
 // one of its snapshots (or the empty one before bootstrap). Caller holds Mu and
 // calls at a quiescent cut. Returns false when the result was served from cache.
 func (o *Oracles) CheckLatestCfg(in *Instance, cfg raft.Configuration) bool {
-	if len(cfg.Servers) == 0 {
+	if len(cfg.Servers) == 0 || in.installing {
+		// (half-way through InstallSnapshot the snapshot is durable and the
+		// handler has not switched to its configuration yet; nothing else runs)
 		return false
 	}
 	key := cfgString(cfg)
